@@ -265,7 +265,7 @@ def run(ctx):
 
         # ---- object level
         if do_obj and n >= 1:
-            asig = eqsig.AccSignal(a, dt)
+            asig = ctx.aged(eqsig.AccSignal, a, dt)
             ro = call_impl(ts.interp_to_approx_dt, asig, target, even=even)
             ok = ro[0] == 'ok' and np.array_equal(ro[1].values, out) and ro[1].dt == new_dt and ro[1].npts == L
             ctx.oracle('C14 object-level interp_to_approx_dt == array-level interp_array_to_approx_dt (values, dt, npts)', bool(ok), full_inputs,
@@ -274,7 +274,7 @@ def run(ctx):
 
         # ---- resample_to_approx_dt: step rule and length
         if do_resample and n >= 2:
-            asig = eqsig.AccSignal(a, dt)
+            asig = ctx.aged(eqsig.AccSignal, a, dt)
             rr = call_impl(ts.resample_to_approx_dt, asig, target, even=even)
             rfacts = {'function': 'resample_to_approx_dt', 'even': bool(even), 'target_ge_dt': bool(target >= dt), 'branch': branch,
                       'clause': 'returns'}
@@ -343,7 +343,7 @@ def run(ctx):
             return sum(A * np.cos(2 * math.pi * c * tfrac + p) for A, c, p in zip(amps, cycles, phases))
         a = sig(np.arange(N) / N)
         amp = sum(amps)
-        asig = eqsig.AccSignal(a, dt)
+        asig = ctx.aged(eqsig.AccSignal, a, dt)
         rr = call_impl(ts.resample_to_approx_dt, asig, target, even=even)
         inputs = {'npts': N, 'dt': dt, 'target_dt': target, 'even': even, 'cycles_over_record': cycles, 'amplitudes': amps, 'phases': phases}
         ctx.count_case(('bl', N, dt, target, even, tuple(cycles), tuple(phases)), True)
@@ -366,7 +366,7 @@ def run(ctx):
     # C14.e consumer
     # ------------------------------------------------------------------------------------------------------------
     def consumer(a, dt, periods):
-        asig = eqsig.AccSignal(a, dt)
+        asig = ctx.aged(eqsig.AccSignal, a, dt)
         calls = []
         orig = eqsig.single.interp_array_to_approx_dt
 
